@@ -477,7 +477,10 @@ func (d *Directory) Unlink(name string) error {
 }
 
 func (d *Directory) Flush() error {
-	nd, err := d.getNode(true)
+	// Do not drop the entries cache: callers may hold cached children
+	// (a *File between Lookup and Close); dropping them here would create
+	// a second object for the same entry and lose their updates.
+	nd, err := d.getNode(false)
 	if err != nil {
 		return err
 	}
